@@ -153,6 +153,15 @@ func Resolve(nops, us, nowners, nvals, pre int, ownHeavy bool, as []abs) Scenari
 		return Ev{K: "vadd", O: o, V: v, Ops: ops, SigO: o, SigN: m.NextNonce(o), SigK: v}
 	}
 	for _, a := range as {
+		if ownHeavy && (a.Kind == "vrem" || a.Kind == "liq" || a.Kind == "react") {
+			haveOwn := false
+			for _, sh := range m.Shares {
+				haveOwn = haveOwn || sh.OwnID != 0
+			}
+			if !haveOwn {
+				a.Kind = "vaddok" // nothing of ours to remove / liquidate yet: register something first
+			}
+		}
 		switch a.Kind {
 		case "opadd":
 			if id := nextOp(); id != 0 {
